@@ -87,6 +87,12 @@ CHECKS.update({
                 note="Declined, loudly: per-cell numerical equality with the textbook statistic (floating point). The weighted quantile ignoring a missing value that sorts beyond the quantile (a value-level defect named in the property) is NOT decided by this check.", ref="4 C18"),
 })
 
+CHECKS.update({
+    "C01": dict(cat="other", technique="category-vs-extent classification of fit_dtype call sites, dominance of accumulate-style stores for mapped keys, subscript-load rule for a caller-chosen key, structural agreement of the two construction branches",
+                text="NARROW CLAIM: four necessary conditions of the round trip, each with a violating input whenever it fires - to_array passes a minimum to fit_dtype for category values (negatives); inside loops, plain-dict stores keyed by a mapped value accumulate (many-to-one mappings merge instead of overwriting); a caller-chosen common value absent from the data is never used as a plain subscript into a data-keyed dict; the numpy.where branch and the row-scan branch (which no test executes) skip exactly `mapped value == common`, key by (mapped value[, column from enumerate(values.T)]) and store row positions of that same column.",
+                note="Declined, loudly: element-for-element equality of array -> index -> array for every input and option is a statement about values and needs execution.", ref="4 C01"),
+})
+
 NA_REASON = "check not built yet (build in progress; see DESIGN.md section 8)"
 
 
